@@ -205,34 +205,15 @@ def run(ctx):
                 "kind of column A (categorical / value / HED column) x kind of the host column (categorical / value); one events "
                 "table per case with one row per combination of cell states (host ok/n-a, A ok/n-a/unknown key/empty, B, C ok/n-a), "
                 "random column order and template spacing; distinct = (template, kinds); non-trivial = template holds a reference")
-    cfg = "MC_Assemble.cfg"
-    made = None
-    if not quick:
-        with open(os.path.join(tlc.SPECS, cfg)) as f:
-            txt = f.read().replace("MaxN = 3", "MaxN = 4")
-        made = os.path.join(tlc.SPECS, "MC_Assemble_5.cfg")
-        with open(made, "w") as f:
-            f.write(txt)
-        cfg = "MC_Assemble_5.cfg"
-    try:
-        r = ctx.tlc("MC_Assemble", cfg, workers=1, label="template enumeration with prescribed rows; NoEmptyGroup, ParentsSurvive, NotListedTwice",
-                    timeout=3000, heap="8g")
-    finally:
-        if made:
-            os.remove(made)
+    cfg = "MC_Assemble.cfg" if quick else ctx.cfg("MC_Assemble.cfg", ("MaxN = 3", "MaxN = 4"))
+    r = ctx.tlc("MC_Assemble", cfg, workers=1, label="template enumeration with prescribed rows; NoEmptyGroup, ParentsSurvive, NotListedTwice",
+                timeout=3000, heap="8g")
     cases = [j for j in r.json_lines if not has_empty_group(j)]
     ctx.exhaustive = True
     # larger templates (<= 6 nodes) sampled by simulating the template grammar
-    with open(os.path.join(tlc.SPECS, "MC_Assemble.cfg")) as f:
-        txt = f.read().replace("MaxN = 3", "MaxN = 6")
-    made = os.path.join(tlc.SPECS, "MC_Assemble_sim.cfg")
-    with open(made, "w") as f:
-        f.write(txt)
-    try:
-        rs = ctx.tlc("MC_Assemble", "MC_Assemble_sim.cfg", workers=1, mode="simulate", simulate="num=%d" % (150 if quick else 2500),
-                     depth=7, seed=ctx.seed + 3, label="larger templates (simulate, <= 6 nodes)", timeout=3000)
-    finally:
-        os.remove(made)
+    rs = ctx.tlc("MC_Assemble", ctx.cfg("MC_Assemble.cfg", ("MaxN = 3", "MaxN = 6")), workers=1, mode="simulate",
+                 simulate="num=%d" % (150 if quick else 2500), depth=7, seed=ctx.seed + 3,
+                 label="larger templates (simulate, <= 6 nodes)", timeout=3000)
     seen = set()
     for j in rs.json_lines:
         k = json.dumps([j["par"], j["kind"], j["akind"], j["hkind"], j.get("h2")])
